@@ -27,8 +27,9 @@
    of LegacySyntax.v) and parenthesized when its outermost operator binds looser than its position needs.
    The precedence constants come from gen/LegacyTable.v (const block of visitor.go).
 
-   migrateFunctionCall's error result is DROPPED by VisitFunctionCall (`rewritten, _ := ...`): a call with
-   too few / too many arguments migrates to the empty string.  The model does the same. *)
+   An error of migrateFunctionCall (a call with a number of arguments its migrator does not take) is remembered in
+   legacyVisitor.err: migrateExpression then fails like a syntax error does and the template keeps the legacy text
+   of that expression ([visit_errs]). *)
 From Coq Require Import List NArith ZArith Bool.
 From Coq Require String.
 Import String.StringSyntax.
@@ -246,8 +247,13 @@ Definition param_decremented (p : text) : text :=
   end.
 
 (* paramBySpaces *)
+Definition t_if_open : text := [105; 102; 40].                                     (* if( *)
+Definition t_byspaces_close : text := [44; 32; 34; 32; 92; 116; 34; 44; 32; 78; 85; 76; 76; 41].  (* , " \t", NULL) *)
 Definition param_by_spaces (p : text) : text :=
-  if text_eqb (trim_space (lower p)) t_true then t_space_tab else t_NULL.
+  let l := trim_space (lower p) in
+  if text_eqb l t_true then t_space_tab
+  else if text_eqb l t_false then t_NULL
+  else t_if_open ++ p ++ t_byspaces_close.
 
 Definition apply_pm (m : pmig) (p : text) : text :=
   match m with
@@ -290,19 +296,78 @@ Fixpoint lookup {A} (k : text) (l : list (text * A)) : option A :=
   | (k', v) :: r => if text_eqb k k' then Some v else lookup k r
   end.
 
-(* migrateFunctionCall; an error result becomes the empty string in VisitFunctionCall *)
-Definition migrate_call_with (tbl : list (text * cmig)) (fname : text) (params : list text) : text :=
+(* numTemplateParams: the number of %s and %v placeholders, or the highest index of the %[n] placeholders *)
+Fixpoint max_explicit_index (fuel : nat) (f : text) : nat :=
+  match fuel with
+  | O => O
+  | S k =>
+      match f with
+      | [] => O
+      | c :: r =>
+          match r with
+          | c2 :: r1 =>
+              if (c =? 37) && (c2 =? 91) then
+                let (ds, r2) := span ascii_digit r1 in
+                match ds, r2, digits_value 0 ds with
+                | _ :: _, c3 :: _, Some n =>
+                    if c3 =? 93 then Nat.max (N.to_nat n) (max_explicit_index k r) else max_explicit_index k r
+                | _, _, _ => max_explicit_index k r
+                end
+              else max_explicit_index k r
+          | [] => O
+          end
+      end
+  end.
+
+Definition num_template_params (f : text) : nat :=
+  Nat.max (count_sub t_pct_s f + count_sub t_pct_v f) (max_explicit_index (S (length f)) f).
+
+Definition t_datetime_diff : text := Eval compute in s2t "datetime_diff"%string.
+
+(* asDateDif: the units y, m, d in either case become Y, M, D *)
+Definition datedif_unit (p : text) : text :=
+  let l := lower p in
+  if text_eqb l [34; 121; 34] then [34; 89; 34]
+  else if text_eqb l [34; 109; 34] then [34; 77; 34]
+  else if text_eqb l [34; 100; 34] then [34; 68; 34]
+  else p.
+
+Definition datedif_params (params : list text) : list text :=
+  match params with
+  | [a; b; u] => [a; b; datedif_unit u]
+  | _ => params
+  end.
+
+(* withOptionalDefaults: params[:len] + defaults[len-numRequired:] when numRequired <= len < numRequired + len(defaults) *)
+Definition with_defaults (required : nat) (defaults params : list text) : list text :=
+  if Nat.leb required (length params) && Nat.ltb (length params) (required + length defaults)
+  then params ++ skipn (length params - required) defaults
+  else params.
+
+(* a call migrator applied to (funcName, params): the migrated text, or an error *)
+Fixpoint migrate_cmig (m : cmig) (fname : text) (params : list text) : option text :=
+  match m with
+  | AsIs => Some (render_call fname params)
+  | Rename n => Some (render_call n params)
+  | Template f precs =>
+      if Nat.eqb (length params) (num_template_params f) then Some (sprintf f (operands_of params precs)) else None
+  | Join sep prec =>
+      match params with
+      | [] => None
+      | _ => Some (join sep (join_operands params prec))
+      end
+  | Params n defaults pms =>
+      if Nat.ltb (length pms) (length params) then None
+      else Some (render_call n (migrate_params pms params defaults))
+  | DateDif => Some (render_call t_datetime_diff (datedif_params params))
+  | Optional required defaults inner => migrate_cmig inner fname (with_defaults required defaults params)
+  end.
+
+(* migrateFunctionCall *)
+Definition migrate_call_with (tbl : list (text * cmig)) (fname : text) (params : list text) : option text :=
   match lookup fname tbl with
-  | None => render_call fname params
-  | Some AsIs => render_call fname params
-  | Some (Rename n) => render_call n params
-  | Some (Template f precs) =>
-      if Nat.ltb (length params) (count_sub t_pct_s f + count_sub t_pct_v f) then []
-      else sprintf f (operands_of params precs)
-  | Some (Join sep prec) => join sep (join_operands params prec)
-  | Some (Params n defaults pms) =>
-      if Nat.ltb (length pms) (length params) then []
-      else render_call n (migrate_params pms params defaults)
+  | None => Some (render_call fname params)
+  | Some m => migrate_cmig m fname params
   end.
 
 Definition migrate_call := migrate_call_with legacy_table.
@@ -401,13 +466,29 @@ Section Visitor.
         | _ =>                                                (* exponent, * /, comparison, equality, & *)
             as_operand (visit a) (go_prec_of_op o) ++ 32 :: op_text o ++ 32 :: as_operand (visit b) (S (go_prec_of_op o))
         end
-    | E1Call f args => migrate_call (lower f) (map visit args)  (* VisitFunctionCall + VisitFunctionParameters *)
+    | E1Call f args =>                                        (* VisitFunctionCall + VisitFunctionParameters *)
+        match migrate_call (lower f) (map visit args) with
+        | Some rewritten => rewritten
+        | None => render_call (lower f) (map visit args)       (* the error is remembered, the call stays as it is *)
+        end
+    end.
+
+  (* legacyVisitor.err: some function call of the expression could not be migrated *)
+  Fixpoint visit_errs (e : e1) : bool :=
+    match e with
+    | E1Paren x => visit_errs x
+    | E1Neg x => visit_errs x
+    | E1Bin _ a b => visit_errs a || visit_errs b
+    | E1Call f args =>
+        existsb visit_errs args ||
+        match migrate_call (lower f) (map visit args) with Some _ => false | None => true end
+    | _ => false
     end.
 
   (* migrateExpression: None = the legacy parser reported a syntax error *)
   Definition migrate_expression (expression : text) : option text :=
     match parse1 expression with
-    | Some e => Some (visit e)
+    | Some e => if visit_errs e then None else Some (visit e)
     | None => None
     end.
 
